@@ -64,6 +64,7 @@ fn main() {
             println!("{}", serde_json::to_string_pretty(&driver::gen_plan(&args[1], &args[2], seed)).unwrap());
             0
         }
+        Some("determinism") => driver::determinism_main(args.get(1).and_then(|s| s.parse().ok()).unwrap_or(2000)),
         Some("c13-micro") => engine_c13::micro_main(&args[1..]),
         Some("make-fixtures") => fixtures::make_main(),
         _ => {
